@@ -43,7 +43,7 @@ static inline DescSpec desc_from_op(const Op &op)
 	    }
 	} else { e.t = 0; e.key = s.empty() ? "x" : s; }
 	if (e.n < 0) e.n = 0;
-	if (e.n > 64) e.n = 64;
+	if (e.n > 64 && e.n < 4294967296L) e.n = 64;	// (indices beyond the range of int are kept: no list reaches them)
 	// keys cannot contain NUL; nothing else is excluded
 	d.path.el.push_back(e);
     }
